@@ -973,6 +973,10 @@ impl IoUring {
     #[inline]
     #[must_use]
     pub fn needs_wakeup(&self) -> bool {
+        // The new tail has to be visible to the kernel's poller before its flag is looked at here
+        // (it sets the flag, does a full barrier, looks at the tail once more and goes to sleep),
+        // a release store followed by an acquire load of another word may be reordered.
+        core::sync::atomic::fence(Ordering::SeqCst);
         unsafe {
             self.submission_queue
                 .kernel_flags
